@@ -199,12 +199,24 @@ def case_mpc(ctx, which):
     centre = m.npoints - 1
     if which == "mpc":
         item = fem.MultiPointConstraint(field, points=[1, 2, 4], centerpoint=centre, multiplier=k)
+    elif which == "mpc_centre_in_points":
+        # a whole set of points tied to one of its own members (e.g. a face tied to its middle node)
+        centre = 2
+        item = fem.MultiPointConstraint(field, points=[1, 2, 4], centerpoint=centre, multiplier=k)
     elif which == "mpc_skip":
         item = fem.MultiPointConstraint(field, points=[1, 2, 4], centerpoint=centre, skip=(False, True), multiplier=k)
     else:
         item = fem.MultiPointContact(field, points=[1], centerpoint=centre, skip=(False, True), multiplier=k)
     r = dense(ctx, item.assemble.vector(field)).reshape(-1, 2)
     ctx.equal("constraint_forces_self_equilibrated", r.sum(axis=0), np.zeros(2, dtype=int))
+    if which in ("mpc", "mpc_centre_in_points"):
+        # the spring forces themselves: k (u_p - u_c) at every tied point, minus their sum at the centre, zero elsewhere
+        U = np.asarray(field[0].values)
+        exp = np.zeros(U.shape, dtype=object if ctx.sym else float)
+        for p_ in (1, 2, 4):
+            exp[p_] = exp[p_] + k * (U[p_] - U[centre])
+            exp[centre] = exp[centre] - k * (U[p_] - U[centre])
+        ctx.equal("constraint_forces_are_the_spring_forces", r, exp)
     if which == "mpc_skip":
         ctx.equal("no_force_along_skipped_axis", r[:, 1], np.zeros(m.npoints, dtype=int))
 
@@ -226,5 +238,6 @@ def cases(tier):
         out.append(("mass", case_mass, {"family": fam}))
     out.append(("mpc", case_mpc, {"which": "mpc"}))
     out.append(("mpc", case_mpc, {"which": "mpc_skip"}))
+    out.append(("mpc", case_mpc, {"which": "mpc_centre_in_points"}))
     out.append(("mpc", case_mpc, {"which": "contact", "max_paths": 32}))
     return out
